@@ -127,11 +127,22 @@ def crit_config(cfg, target_names, crit):
 
 
 def run_frame(pose, ests, gts, targets, policy, crit, pf_thresholds, task="detection", metrics=None, frame_name="0",
-              unix_time=0, previous=None, match_radii=None):
-    """matching + PerceptionFrameResult.evaluate_frame on a rendered scene, as the manager does."""
+              unix_time=0, previous=None, match_radii=None, derive_from=None):
+    """matching + PerceptionFrameResult.evaluate_frame on a rendered scene, as the manager does.
+    `derive_from`: an earlier FrameGroundTruth that is deep-copied and given this frame's pose and objects (what the
+    interpolation code does with a key frame), so that its transform registry is *reused*."""
     cfg = EvalCfg(task)
     names = [t.value for t in targets]
-    gtf = FrameGroundTruth(unix_time, frame_name, [g.obj for g in gts], transforms=pose.transforms)
+    if derive_from is not None:
+        from copy import deepcopy
+
+        from perception_eval.common.transform import TransformKey
+        gtf = deepcopy(derive_from)
+        gtf.transforms[TransformKey(FrameID.BASE_LINK, FrameID.MAP)] = pose.transforms[0]
+        gtf.objects = [g.obj for g in gts]
+        gtf.unix_time, gtf.frame_name = unix_time, frame_name
+    else:
+        gtf = FrameGroundTruth(unix_time, frame_name, [g.obj for g in gts], transforms=pose.transforms)
     results = OR.get_object_results(cfg.evaluation_task, [e.obj for e in ests], gtf.objects, target_labels=targets,
                                     matching_label_policy=POLICIES[policy], matchable_thresholds=match_radii,
                                     transforms=gtf.transforms)
